@@ -132,7 +132,7 @@ Proof.
       transitivity ((ns :: tl (shape m)) ++ feat ++ concat (map (fun _ : list nat => feat) idxs));
         [cbn [app]; now rewrite <- app_assoc | now rewrite <- Hsm].
     + cbn [concat]. rewrite app_assoc, G. cbn [concat] in G1. rewrite app_nil_r in G1. rewrite G1.
-      unfold bouter_entry, xprod. cbn [combine map rprod fold_right fst snd]. ring.
+      unfold bouter_entry, xprod, rprod. cbn [combine map fold_right fst snd]. ring.
 Qed.
 
 (* (n_samples * moment)[idx_1 ++ ... ++ idx_order] = sum_b prod_j T[b, idx_j] *)
@@ -143,7 +143,8 @@ Theorem moment_sum_spec (T : tensor F) (ns : nat) (feat : list nat) (idxs : list
     get d R (concat idxs) = bsum Op ns (fun b => xprod T b idxs).
 Proof.
   intros HsT Hns Hne Hf. destruct idxs as [|i0 idxs]; [congruence|]. inversion Hf as [|? ? Hi0 Hf']; subst.
-  unfold higher_order_moment_sum, moment_sum. cbn [length Nat.eqb]. rewrite Nat.sub_0_r.
+  unfold higher_order_moment_sum, moment_sum. cbn [length Nat.eqb].
+  replace (S (length idxs) - 1) with (length idxs) by lia.
   assert (HT : batched ns T i0) by (unfold batched; rewrite HsT; cbn [tl]; auto).
   destruct (moment_iter_spec T ns feat 0 HsT Hns idxs T i0 Hf' HT) as [R [E [S _]]].
   rewrite E. cbn [rbind]. eexists. split; [reflexivity|].
